@@ -225,10 +225,9 @@ Proof.
 Qed.
 
 Section WithTables.
-Variable sl : list bytes.
 Variable dexts : list bytes.
 
-Lemma gstep_hdr c o g : is_hdr o = true -> gstep sl c g o = g_with_u (uw_sethdr (hdr_fun o)) g.
+Lemma gstep_hdr c o g : is_hdr o = true -> gstep c g o = g_with_u (uw_sethdr (hdr_fun o)) g.
 Proof. destruct o; simpl; intros H; try discriminate; reflexivity. Qed.
 
 Lemma g_eta g : {| g_u := g_u g; g_rfw := g_rfw g; g_should := g_should g; g_gzw := g_gzw g;
@@ -236,7 +235,7 @@ Lemma g_eta g : {| g_u := g_u g; g_rfw := g_rfw g; g_should := g_should g; g_gzw
 Proof. destruct g; reflexivity. Qed.
 
 Lemma gz_hdrs c hs g : forallb is_hdr hs = true ->
-  fold_left (gstep sl c) hs g = g_with_u (uw_sethdr (apply_hdrs hs)) g.
+  fold_left (gstep c) hs g = g_with_u (uw_sethdr (apply_hdrs hs)) g.
 Proof.
   revert g. induction hs as [|o hs IH]; intros g H; simpl.
   - destruct g as [[h cm b] r s z a w]; reflexivity.
@@ -247,7 +246,7 @@ Qed.
 
 (* body phase when the filters said "do not compress": the layer is transparent plumbing *)
 Lemma gz_body_plain c ws : forall g, forallb is_body ws = true -> g_rfw g = true -> g_should g = false ->
-  fold_left (gstep sl c) ws g = g_with_u (fun u => fold_left pstep ws u) g.
+  fold_left (gstep c) ws g = g_with_u (fun u => fold_left pstep ws u) g.
 Proof.
   induction ws as [|o ws IH]; intros g H Hr Hs.
   - destruct g as [[h cm b] r s z a w]; reflexivity.
@@ -263,7 +262,7 @@ Qed.
 (* body phase when compressing: writes go to the gzip.Writer, flushes do nothing new *)
 Lemma gz_body_comp c ws : forall g x, forallb is_body ws = true ->
   g_rfw g = true -> g_should g = true -> g_gzw g = true -> g_active g = true -> u_commit (g_u g) = Some x ->
-  fold_left (gstep sl c) ws g =
+  fold_left (gstep c) ws g =
   {| g_u := g_u g; g_rfw := true; g_should := true; g_gzw := true; g_active := true;
      g_ws := rev (writes ws) ++ g_ws g |}.
 Proof.
@@ -290,26 +289,26 @@ Definition gH (H : headers) : gst :=
      g_rfw := false; g_should := false; g_gzw := false; g_active := false; g_ws := [] |}.
 
 Lemma after_hdrs c hs : forallb is_hdr hs = true ->
-  fold_left (gstep sl c) hs (g0) = gH (apply_hdrs hs []).
+  fold_left (gstep c) hs (g0) = gH (apply_hdrs hs []).
 Proof. intros H. rewrite gz_hdrs by exact H. reflexivity. Qed.
 
-Lemma rfwh_true c H code : resp_ok sl c H = true ->
-  rf_write_header sl c code (gH H) =
+Lemma rfwh_true c H code : resp_ok c H = true ->
+  rf_write_header c code (gH H) =
   {| g_u := {| u_hdr := gz_hdr H; u_commit := Some (code, gz_hdr H); u_body := [] |};
      g_rfw := true; g_should := true; g_gzw := true; g_active := true; g_ws := [] |}.
 Proof. intros Hok. unfold rf_write_header, gH. cbn [g_u u_hdr]. rewrite Hok. reflexivity. Qed.
 
-Lemma rfwh_false c H code : resp_ok sl c H = false ->
-  rf_write_header sl c code (gH H) =
+Lemma rfwh_false c H code : resp_ok c H = false ->
+  rf_write_header c code (gH H) =
   {| g_u := {| u_hdr := H; u_commit := Some (code, H); u_body := [] |};
      g_rfw := true; g_should := false; g_gzw := false; g_active := false; g_ws := [] |}.
 Proof. intros Hok. unfold rf_write_header, gH. cbn [g_u u_hdr]. rewrite Hok. reflexivity. Qed.
 
 Lemma gz_of_shape c s H oc wr : wb_shape s H oc wr ->
-  run_gz sl c s =
+  run_gz c s =
   match oc with
   | None => run_plain s
-  | Some code => if resp_ok sl c H then closed_gz H code wr else run_plain s
+  | Some code => if resp_ok c H then closed_gz H code wr else run_plain s
   end.
 Proof.
   intros Hs. pose proof (plain_of_shape _ _ _ _ Hs) as Hp.
@@ -317,7 +316,7 @@ Proof.
   - rewrite Hp. unfold run_gz. rewrite after_hdrs by exact Hhs. reflexivity.
   - unfold run_gz. rewrite fold_left_app. rewrite (after_hdrs c hs) by exact Hhs.
     cbn [fold_left gstep].
-    destruct (resp_ok sl c (apply_hdrs hs [])) eqn:Hok.
+    destruct (resp_ok c (apply_hdrs hs [])) eqn:Hok.
     + rewrite rfwh_true by exact Hok.
       erewrite gz_body_comp; try reflexivity; try exact Hws.
       unfold g_finish, closed_gz. cbn. rewrite app_nil_r, rev_involutive. reflexivity.
@@ -328,7 +327,7 @@ Proof.
       unfold closed_plain. cbn. rewrite app_nil_r. reflexivity.
   - unfold run_gz. rewrite fold_left_app. rewrite (after_hdrs c hs) by exact Hhs.
     cbn [fold_left gstep]. unfold rf_write at 1. cbn [g_rfw gH].
-    destruct (resp_ok sl c (apply_hdrs hs [])) eqn:Hok.
+    destruct (resp_ok c (apply_hdrs hs [])) eqn:Hok.
     + fold (gH (apply_hdrs hs [])). rewrite rfwh_true by exact Hok.
       cbn [g_rfw g_should g_u g_gzw g_active g_ws].
       erewrite gz_body_comp; try reflexivity; try exact Hws.
@@ -378,40 +377,44 @@ Proof.
 Qed.
 
 Section Serve.
-Variable sl : list bytes.
 Variable dexts : list bytes.
 
 (* every run of the gzip middleware on a well-behaved handler is the identity run, or the
    "compressed" closed form reached through a config that accepted request and response *)
 Lemma serve_cases cs cfgs path ae s : wb s = true ->
-  gzip_serve sl dexts cs cfgs path ae s = run_plain s \/
+  gzip_serve dexts cs cfgs path ae s = run_plain s \/
   exists c H code wr,
-    contains ae GZIP = true /\ find (req_ok dexts cs path) cfgs = Some c /\ resp_ok sl c H = true /\
+    contains ae GZIP = true /\ find (req_ok dexts cs path) cfgs = Some c /\ resp_ok c H = true /\
     run_plain s = closed_plain H (Some code) wr /\
-    gzip_serve sl dexts cs cfgs path ae s = closed_gz H code wr.
+    gzip_serve dexts cs cfgs path ae s = closed_gz H code wr.
 Proof.
   intros Hwb. unfold gzip_serve.
   destruct (contains ae GZIP) eqn:Hae; simpl; [|left; reflexivity].
   destruct (find (req_ok dexts cs path) cfgs) as [c|] eqn:Hf; [|left; reflexivity].
   destruct (wb_shape_of s Hwb) as (H & oc & wr & Hs).
-  rewrite (gz_of_shape sl c s H oc wr Hs).
+  rewrite (gz_of_shape c s H oc wr Hs).
   destruct oc as [code|]; [|left; reflexivity].
-  destruct (resp_ok sl c H) eqn:Hok; [|left; reflexivity].
+  destruct (resp_ok c H) eqn:Hok; [|left; reflexivity].
   right. exists c, H, code, wr. repeat split; auto.
   apply plain_of_shape. exact Hs.
 Qed.
 
-Lemma resp_ok_skip c H : resp_ok sl c H = true -> existsb (beq (hget H K_CE)) sl = false.
+Lemma skip_ok_no_coding vals : skip_ok vals = no_coding vals.
 Proof.
-  unfold resp_ok, skip_ok. intros Hok. apply andb_true_iff in Hok as [Hs _].
-  apply negb_true_iff in Hs. exact Hs.
+  unfold skip_ok, no_coding, is_identity. induction vals as [|v vals IH]; simpl; [reflexivity|].
+  rewrite IH. destruct (beq v []), (beq v IDENTITY); reflexivity.
 Qed.
 
-Lemma ce_in_skip_blocks c H x : hvals H K_CE = [x] -> In x sl -> resp_ok sl c H = false.
+Lemma resp_ok_no_coding c H : resp_ok c H = true -> no_coding (hvals H K_CE) = true.
 Proof.
-  intros Hv Hin. destruct (resp_ok sl c H) eqn:Hok; [|reflexivity].
-  apply resp_ok_skip in Hok. unfold hget in Hok. rewrite Hv in Hok.
-  apply existsb_beq_In in Hin. congruence.
+  unfold resp_ok. intros Hok. apply andb_true_iff in Hok as [Hs _].
+  rewrite skip_ok_no_coding in Hs. exact Hs.
+Qed.
+
+Lemma no_coding_codings vals : no_coding vals = true -> codings vals = [].
+Proof.
+  unfold no_coding, codings. induction vals as [|v vals IH]; simpl; [reflexivity|].
+  intros H. apply andb_true_iff in H as [Hv Hr]. rewrite Hv. simpl. exact (IH Hr).
 Qed.
 
 (* ---- transparency ---- *)
@@ -419,69 +422,66 @@ Lemma gzip_transparent gz gunzip :
   (forall ws, gunzip (gz ws) = Some (concat ws)) ->
   forall cs cfgs path ae head s,
   wb s = true ->
-  (r_ce (run_plain s) = [] \/ exists c, r_ce (run_plain s) = [c] /\ In c sl) ->
-  transparent gz gunzip head (gzip_serve sl dexts cs cfgs path ae s) (run_plain s).
+  transparent gz gunzip head (gzip_serve dexts cs cfgs path ae s) (run_plain s).
 Proof.
-  intros Hrt cs cfgs path ae head s Hwb Hce.
+  intros Hrt cs cfgs path ae head s Hwb.
   destruct (serve_cases cs cfgs path ae s Hwb) as [-> | (c & H & code & wr & _ & _ & Hok & Hp & ->)].
   - split; [reflexivity|]. left. split; reflexivity.
   - rewrite Hp in *. split; [reflexivity|].
-    unfold r_ce in Hce. rewrite hdr_plain in Hce.
-    destruct Hce as [Hnil | (x & Hx & Hin)].
-    + right. unfold r_ce. rewrite hdr_plain, hdr_gz, gz_hdr_ce. repeat split; auto.
-      rewrite status_gz, wire_gz, wire_plain.
-      destruct (bodyless head code); [left; reflexivity | right; apply Hrt].
-    + rewrite (ce_in_skip_blocks c H x Hx Hin) in Hok. discriminate.
+    right. unfold r_ce. rewrite hdr_plain, hdr_gz, gz_hdr_ce.
+    split; [exact (resp_ok_no_coding c H Hok)|]. split; [reflexivity|].
+    rewrite status_gz, wire_gz, wire_plain.
+    destruct (bodyless head code); [left; reflexivity | right; apply Hrt].
 Qed.
 
 Lemma client_view gz gunzip :
   (forall ws, gunzip (gz ws) = Some (concat ws)) ->
   forall cs cfgs path ae head s,
-  wb s = true -> r_ce (run_plain s) = [] ->
-  client_body gz gunzip head (gzip_serve sl dexts cs cfgs path ae s) = Some (wire gz head (run_plain s)).
+  wb s = true -> no_coding (r_ce (run_plain s)) = true ->
+  client_body gz gunzip head (gzip_serve dexts cs cfgs path ae s) = Some (wire gz head (run_plain s)).
 Proof.
   intros Hrt cs cfgs path ae head s Hwb Hce.
   destruct (serve_cases cs cfgs path ae s Hwb) as [-> | (c & H & code & wr & _ & _ & Hok & Hp & ->)].
-  - unfold client_body. rewrite Hce. unfold wire. destruct (bodyless head (r_status (run_plain s))); reflexivity.
+  - unfold client_body. rewrite (no_coding_codings _ Hce). unfold wire.
+    destruct (bodyless head (r_status (run_plain s))); reflexivity.
   - rewrite Hp. unfold client_body. rewrite status_gz, wire_gz, wire_plain.
     unfold r_ce. rewrite hdr_gz, gz_hdr_ce.
     destruct (bodyless head code); [reflexivity|].
-    rewrite beq_refl. apply Hrt.
+    change (codings [GZIP]) with [GZIP]. cbv iota. rewrite beq_refl. apply Hrt.
 Qed.
 
 (* ---- Content-Encoding names exactly what was applied ---- *)
 Lemma ce_exact cs cfgs path ae s :
   wb s = true ->
-  (r_ce (run_plain s) = [] \/ exists c, r_ce (run_plain s) = [c] /\ In c sl) ->
-  let out := gzip_serve sl dexts cs cfgs path ae s in
-  r_ce out = r_ce (run_plain s) ++ applied out.
+  let out := gzip_serve dexts cs cfgs path ae s in
+  (applied out = [] -> r_ce out = r_ce (run_plain s)) /\
+  codings (r_ce out) = codings (r_ce (run_plain s)) ++ applied out.
 Proof.
-  intros Hwb Hce out. unfold out.
+  intros Hwb out. unfold out.
   destruct (wb_shape_of s Hwb) as (H0 & oc0 & wr0 & Hs0).
   pose proof (plain_of_shape _ _ _ _ Hs0) as Hp0.
   destruct (serve_cases cs cfgs path ae s Hwb) as [-> | (c & H & code & wr & _ & _ & Hok & Hp & ->)].
-  - unfold applied. rewrite Hp0, has_gz_plain, app_nil_r. reflexivity.
-  - rewrite Hp in *. unfold r_ce in *. rewrite hdr_plain in *. rewrite hdr_gz, gz_hdr_ce.
-    destruct Hce as [-> | (x & Hx & Hin)].
-    + reflexivity.
-    + rewrite (ce_in_skip_blocks c H x Hx Hin) in Hok. discriminate.
+  - unfold applied. rewrite Hp0, has_gz_plain, app_nil_r. split; reflexivity.
+  - rewrite Hp. split; [intros Happ; discriminate Happ|].
+    unfold r_ce. rewrite hdr_plain, hdr_gz, gz_hdr_ce.
+    rewrite (no_coding_codings _ (resp_ok_no_coding c H Hok)). reflexivity.
 Qed.
 
-(* ---- already encoded (with a listed coding) => not touched at all ---- *)
-Lemma not_double_encoded cs cfgs path ae s x :
-  wb s = true -> r_ce (run_plain s) = [x] -> In x sl ->
-  gzip_serve sl dexts cs cfgs path ae s = run_plain s.
+(* ---- already encoded (any Content-Encoding value other than "" / identity) => not touched at all ---- *)
+Lemma not_double_encoded cs cfgs path ae s :
+  wb s = true -> no_coding (r_ce (run_plain s)) = false ->
+  gzip_serve dexts cs cfgs path ae s = run_plain s.
 Proof.
-  intros Hwb Hx Hin.
+  intros Hwb Hx.
   destruct (serve_cases cs cfgs path ae s Hwb) as [-> | (c & H & code & wr & _ & _ & Hok & Hp & ->)]; [reflexivity|].
   rewrite Hp in Hx. unfold r_ce in Hx. rewrite hdr_plain in Hx.
-  rewrite (ce_in_skip_blocks c H x Hx Hin) in Hok. discriminate.
+  rewrite (resp_ok_no_coding c H Hok) in Hx. discriminate.
 Qed.
 
 (* ---- Content-Length absent or correct ---- *)
 Lemma content_length_ok gz cs cfgs path ae head s :
   wb s = true -> cl_correct gz head (run_plain s) ->
-  cl_correct gz head (gzip_serve sl dexts cs cfgs path ae s).
+  cl_correct gz head (gzip_serve dexts cs cfgs path ae s).
 Proof.
   intros Hwb Hcl.
   destruct (serve_cases cs cfgs path ae s Hwb) as [-> | (c & H & code & wr & _ & _ & Hok & Hp & ->)]; [exact Hcl|].
@@ -490,7 +490,7 @@ Qed.
 
 (* ---- no gzip in Accept-Encoding (as the code reads it) => identity ---- *)
 Lemma identity_when_no_gzip_substring cs cfgs path ae s :
-  contains ae GZIP = false -> gzip_serve sl dexts cs cfgs path ae s = run_plain s.
+  contains ae GZIP = false -> gzip_serve dexts cs cfgs path ae s = run_plain s.
 Proof. intros H. unfold gzip_serve. rewrite H. reflexivity. Qed.
 
 (* ---- request filters ---- *)
@@ -502,7 +502,7 @@ Qed.
 
 Lemma excluded_identity cs cfgs path ae s :
   (forall c, In c cfgs -> req_ok dexts cs path c = false) ->
-  gzip_serve sl dexts cs cfgs path ae s = run_plain s.
+  gzip_serve dexts cs cfgs path ae s = run_plain s.
 Proof.
   intros H. unfold gzip_serve. rewrite (find_none_all _ _ H).
   destruct (negb (contains ae GZIP)); reflexivity.
@@ -513,7 +513,7 @@ Lemma min_length_respected cs cfgs path ae s c :
   wb s = true -> find (req_ok dexts cs path) cfgs = Some c -> c_min c <> 0%Z ->
   (r_cl (run_plain s) = [] \/
    exists v r, r_cl (run_plain s) = v :: r /\ forall n, parse_int v = Some n -> (n < c_min c)%Z) ->
-  gzip_serve sl dexts cs cfgs path ae s = run_plain s.
+  gzip_serve dexts cs cfgs path ae s = run_plain s.
 Proof.
   intros Hwb Hf Hmin Hcl.
   destruct (serve_cases cs cfgs path ae s Hwb) as [-> | (c' & H & code & wr & _ & Hf' & Hok & Hp & ->)]; [reflexivity|].
@@ -532,7 +532,7 @@ Qed.
 (* ---- headers of a compressed response ---- *)
 Lemma compressed_headers cs cfgs path ae s :
   wb s = true ->
-  let out := gzip_serve sl dexts cs cfgs path ae s in
+  let out := gzip_serve dexts cs cfgs path ae s in
   applied out = [GZIP] ->
   r_ce out = [GZIP] /\ r_cl out = [] /\ In V_AE (hvals (r_hdr out) K_VARY) /\
   hget (r_hdr out) K_ETAG = weak_of (hget (r_hdr (run_plain s)) K_ETAG).
@@ -550,12 +550,12 @@ Qed.
 Lemma compresses_when_eligible cs cfgs path ae s c :
   wb s = true -> forallb is_hdr s = false ->
   contains ae GZIP = true -> find (req_ok dexts cs path) cfgs = Some c ->
-  resp_ok sl c (r_hdr (run_plain s)) = true ->
-  applied (gzip_serve sl dexts cs cfgs path ae s) = [GZIP].
+  resp_ok c (r_hdr (run_plain s)) = true ->
+  applied (gzip_serve dexts cs cfgs path ae s) = [GZIP].
 Proof.
   intros Hwb Hnh Hae Hf Hok. unfold gzip_serve. rewrite Hae, Hf. simpl.
   destruct (wb_shape_of s Hwb) as (H & oc & wr & Hs).
-  rewrite (gz_of_shape sl c s H oc wr Hs).
+  rewrite (gz_of_shape c s H oc wr Hs).
   rewrite (plain_of_shape _ _ _ _ Hs), hdr_plain in Hok.
   destruct Hs as [hs Hhs | hs code ws Hhs Hws | hs b ws Hhs Hws].
   - congruence.
@@ -640,54 +640,45 @@ Proof.
   - rewrite hvals_hset_other by exact cl_ne_ce. rewrite hvals_hset_other by exact etag_ne_ce. reflexivity.
 Qed.
 
-Lemma static_sibling_not_reencoded sl dexts prio cs cfgs path ae head data sibs name ext :
+Lemma static_sibling_not_reencoded dexts prio cs cfgs path ae head data sibs name ext :
   select_sibling prio ae (fun e => match sib_data sibs e with Some _ => true | None => false end) = Some (name, ext) ->
-  In name sl ->
-  gzip_serve sl dexts cs cfgs path ae (static_script prio head ae data sibs) =
+  is_identity name = false ->
+  gzip_serve dexts cs cfgs path ae (static_script prio head ae data sibs) =
   run_plain (static_script prio head ae data sibs).
 Proof.
-  intros Hsel Hin. apply (not_double_encoded sl dexts cs cfgs path ae _ name).
+  intros Hsel Hid. apply (not_double_encoded dexts cs cfgs path ae _).
   - apply static_wb.
-  - rewrite static_ce, Hsel. reflexivity.
-  - exact Hin.
+  - rewrite static_ce, Hsel. unfold no_coding. simpl. rewrite Hid. reflexivity.
 Qed.
 
-(* every coding the file server can emit is on the skip list of the gzip layer (tables of the
-   current sources, Gen_C18.v) *)
-Lemma prio_in_skip c : In c (map fst gen_c18_static_priority) -> In c gen_c18_skip.
+(* every name on the file server's priority list (current sources, Gen_C18.v) is a real coding *)
+Lemma prio_names_codings n : In n (map fst gen_c18_static_priority) -> is_identity n = false.
 Proof.
-  assert (H : forallb (fun c => existsb (beq c) gen_c18_skip) (map fst gen_c18_static_priority) = true)
+  assert (H : forallb (fun n => negb (is_identity n)) (map fst gen_c18_static_priority) = true)
     by (vm_compute; reflexivity).
-  intros Hin. apply existsb_beq_In. exact (proj1 (forallb_forall _ _) H c Hin).
-Qed.
-
-Lemma not_double_encoded_fileserver_codings dexts cs cfgs path ae s c :
-  wb s = true -> r_ce (run_plain s) = [c] -> In c (map fst gen_c18_static_priority) ->
-  gzip_serve gen_c18_skip dexts cs cfgs path ae s = run_plain s.
-Proof.
-  intros Hwb Hc Hin. exact (not_double_encoded gen_c18_skip dexts cs cfgs path ae s c Hwb Hc (prio_in_skip c Hin)).
+  intros Hin. apply negb_true_iff. exact (proj1 (forallb_forall _ _) H n Hin).
 Qed.
 
 Lemma static_sibling_not_reencoded_full dexts cs cfgs path ae head data sibs name ext :
   select_sibling gen_c18_static_priority ae
     (fun e => match sib_data sibs e with Some _ => true | None => false end) = Some (name, ext) ->
-  gzip_serve gen_c18_skip dexts cs cfgs path ae (static_script gen_c18_static_priority head ae data sibs) =
+  gzip_serve dexts cs cfgs path ae (static_script gen_c18_static_priority head ae data sibs) =
   run_plain (static_script gen_c18_static_priority head ae data sibs).
 Proof.
-  intros Hsel. apply (static_sibling_not_reencoded _ _ _ _ _ _ _ _ _ _ name ext Hsel).
-  apply prio_in_skip. destruct (select_sibling_sound _ _ _ _ _ Hsel) as (_ & _ & l1 & l2 & E & _).
+  intros Hsel. apply (static_sibling_not_reencoded _ _ _ _ _ _ _ _ _ name ext Hsel).
+  apply prio_names_codings. destruct (select_sibling_sound _ _ _ _ _ Hsel) as (_ & _ & l1 & l2 & E & _).
   rewrite E, map_app. apply in_or_app. right. left. reflexivity.
 Qed.
 
-Lemma static_plain_transparent sl dexts prio gz gunzip :
+Lemma static_plain_transparent dexts prio gz gunzip :
   (forall ws, gunzip (gz ws) = Some (concat ws)) ->
   forall cs cfgs path ae head data sibs,
   select_sibling prio ae (fun e => match sib_data sibs e with Some _ => true | None => false end) = None ->
-  client_body gz gunzip head (gzip_serve sl dexts cs cfgs path ae (static_script prio head ae data sibs))
+  client_body gz gunzip head (gzip_serve dexts cs cfgs path ae (static_script prio head ae data sibs))
   = Some (if bodyless head 200 then [] else data).
 Proof.
   intros Hrt cs cfgs path ae head data sibs Hsel.
-  rewrite (client_view sl dexts gz gunzip Hrt); [| apply static_wb | rewrite static_ce, Hsel; reflexivity].
+  rewrite (client_view dexts gz gunzip Hrt); [| apply static_wb | rewrite static_ce, Hsel; reflexivity].
   f_equal. rewrite (plain_of_shape _ _ _ _ (static_shape prio head ae data sibs)).
   rewrite wire_plain. unfold static_hdrs. rewrite Hsel. cbn [snd].
   destruct head; simpl; [reflexivity | apply app_nil_r].
@@ -701,7 +692,7 @@ Definition dexts_min : list bytes := [[]; bs ".txt"].
 
 Lemma flush_first_witness :
   let s := [OFlush; OWrite [1; 2; 3]] in
-  let out := gzip_serve skip_snapshot dexts_min false [bare] (bs "/x") (bs "gzip") s in
+  let out := gzip_serve dexts_min false [bare] (bs "/x") (bs "gzip") s in
   r_ce (run_plain s) = [] /\ applied out = [GZIP] /\ r_ce out = [] /\
   forall gz, wire gz false out = gz [[1; 2; 3]] /\ wire gz false (run_plain s) = [1; 2; 3].
 Proof.
@@ -710,7 +701,7 @@ Qed.
 
 Lemma repeated_writeheader_witness :
   let s := [OWriteHeader 200; OWriteHeader 200; OWrite [1; 2; 3]] in
-  let out := gzip_serve skip_snapshot dexts_min false [bare] (bs "/x") (bs "gzip") s in
+  let out := gzip_serve dexts_min false [bare] (bs "/x") (bs "gzip") s in
   r_ce out = [GZIP] /\ r_segs out = [SP [1; 2; 3]; SG []].
 Proof. vm_compute. split; reflexivity. Qed.
 
@@ -718,7 +709,7 @@ Lemma q0_witness :
   let s := [OWrite [1; 2; 3]] in
   let ae := bs "gzip;q=0" in
   offers_gzip ae = false /\ wb s = true /\
-  applied (gzip_serve skip_snapshot dexts_min false [bare] (bs "/x") ae s) = [GZIP].
+  applied (gzip_serve dexts_min false [bare] (bs "/x") ae s) = [GZIP].
 Proof. vm_compute. repeat split; reflexivity. Qed.
 
 (* Content-Length of static responses: FormatInt of the number of bytes sent, or dropped *)
@@ -740,12 +731,12 @@ Proof.
   rewrite wire_plain. simpl. apply app_nil_r.
 Qed.
 
-Lemma static_content_length sl dexts prio gz cs cfgs path ae data sibs :
-  let out := gzip_serve sl dexts cs cfgs path ae (static_script prio false ae data sibs) in
+Lemma static_content_length dexts prio gz cs cfgs path ae data sibs :
+  let out := gzip_serve dexts cs cfgs path ae (static_script prio false ae data sibs) in
   r_cl out = [] \/ r_cl out = [decimal (N.of_nat (length (wire gz false out)))].
 Proof.
   intros out. unfold out.
-  destruct (serve_cases sl dexts cs cfgs path ae _ (static_wb prio false ae data sibs))
+  destruct (serve_cases dexts cs cfgs path ae _ (static_wb prio false ae data sibs))
     as [-> | (c & H & code & wr & _ & _ & Hok & Hp & ->)].
   - right. rewrite static_cl_plain, static_wire_plain. reflexivity.
   - left. unfold r_cl. rewrite hdr_gz. apply gz_hdr_cl.
